@@ -384,6 +384,10 @@ class NullMatcherClass(Matcher):
     def supports_block_quality(self):
         return True
 
+    def supports(self, astype):
+        # There are no postings, so there are no posting values of any kind
+        return False
+
     def max_quality(self):
         return 0
 
